@@ -123,3 +123,82 @@ Definition spec_res_ok (base ref : str) (obs : option str) : bool :=
   | None => false
   end.
 
+(* ====================================================================================================
+   the other public entry points of the anchored files (exercised by the widened harness)
+   ==================================================================================================== *)
+
+(* is_valid_iri_ref / is_valid_suffixed_iri_ref called directly (iri/src/_regex.rs), the suffixed form with
+   the namespace = the first [cut] code points and with no suffix *)
+Definition suffixed_ok (s : str) (cut : N) (valid suf_none suf_some : bool) : bool :=
+  Bool.eqb (is_valid_iri_ref s) valid &&
+  Bool.eqb (is_valid_suffixed_iri_ref s None) suf_none &&
+  Bool.eqb (is_valid_suffixed_iri_ref (firstn (N.to_nat cut) s) (Some (skipn (N.to_nat cut) s))) suf_some.
+
+(* BaseIri::new / BaseIriRef::new (iri/src/resolve.rs): the resolver's own parser (oxiri, third party) used
+   as a recogniser.  Iri::as_base / to_base unwrap its verdict on a value accepted by the regexes, and in a
+   dev build AsIri::as_iri / AsIriRef::as_iri_ref re-validate a BaseIri with the regexes: both are panic-free
+   iff the two recognisers agree, which is what this definition claims (tied by testing only). *)
+Definition base_iri_new_ok (s : str) : bool := is_absolute_iri_ref s.
+Definition base_iriref_new_ok (s : str) : bool := is_valid_iri_ref s.
+Definition basenew_ok (s : str) (ox_abs ox_ref : bool) : bool :=
+  Bool.eqb (base_iri_new_ok s) ox_abs && Bool.eqb (base_iriref_new_ok s) ox_ref.
+
+(* the components that BaseIri / BaseIriRef expose through Deref (scheme, authority, path, query,
+   fragment, is_absolute): the split of RFC 3986 appendix B *)
+Definition base_parts (s : str) : parts := parse5 s.
+Definition is_some {A} (o : option A) : bool := match o with Some _ => true | None => false end.
+Definition parts_eqb (a b : parts) : bool :=
+  opt_eqb str_eqb (p_scheme a) (p_scheme b) && opt_eqb str_eqb (p_authority a) (p_authority b) &&
+  str_eqb (p_path a) (p_path b) &&
+  opt_eqb str_eqb (p_query a) (p_query b) && opt_eqb str_eqb (p_fragment a) (p_fragment b).
+Definition parts_ok (s : str) (abs : bool) (sch auth : option str) (pth : str) (q f : option str) : bool :=
+  Bool.eqb (is_some (p_scheme (base_parts s))) abs &&
+  parts_eqb (base_parts s) (mk_parts sch auth pth q f).
+
+(* Eq / Ord / PartialOrd (also against str) of the wrappers generated by wrap! (iri/src/_wrap_macro.rs):
+   those of the wrapped text *)
+Definition wrap_cmp (a b : str) : comparison := str_cmp a b.
+Definition wrap_eqb (a b : str) : bool := match wrap_cmp a b with Eq => true | _ => false end.
+Definition cmp_eqb (x y : comparison) : bool :=
+  match x, y with Eq, Eq | Lt, Lt | Gt, Gt => true | _, _ => false end.
+Definition cmp_ok (a b : str) (obs : comparison) : bool := cmp_eqb (wrap_cmp a b) obs.
+
+(* $wid::new_unchecked (iri/src/_wrap_macro.rs): `if cfg!(debug_assertions) { Self::new(inner).unwrap() }`.
+   The harness is a dev build. *)
+Definition debug_assertions : bool := true.
+Definition iriref_new_unchecked_ok (s : str) : bool := if debug_assertions then iriref_new_ok s else true.
+Definition iri_new_unchecked_ok (s : str) : bool := if debug_assertions then iri_new_ok s else true.
+
+(* BaseIriRef::resolve / resolve_into (iri/src/resolve.rs), hence IriRef::resolve: oxiri's entry point run on a
+   base that may be relative; when the base has no scheme and the first segment of the reference (the part before
+   the first "/", "?" or "#") has no ":", a result whose first segment contains ":" is preceded by "./"
+   (needs_protection / first_segment / protect_first_segment, RFC 3986 4.2). *)
+Definition seg_end (c : N) : bool := N.eqb c k_slash || N.eqb c k_qmark || N.eqb c k_hash.
+Definition first_segment (s : str) : str := take_while (fun c => negb (seg_end c)) s.
+Definition has_colon (s : str) : bool := existsb (N.eqb k_colon) s.
+Definition needs_protection (base ref : str) : bool :=
+  negb (is_some (p_scheme (base_parts base))) && negb (has_colon (first_segment ref)).
+Definition protect_first_segment (o : str) : str :=
+  if has_colon (first_segment o) then k_dot :: k_slash :: o else o.
+Definition protect_result (base ref o : str) : str :=
+  if needs_protection base ref then protect_first_segment o else o.
+
+(* ... on a typed reference (Resolvable::output_rel): the result is wrapped with IriRef::new_unchecked.
+   None = panic. *)
+Definition resolve_rel_impl (base ref : str) : option str :=
+  match resolve_impl base ref with
+  | Some o => let o' := protect_result base ref o in
+              if iriref_new_unchecked_ok o' then Some o' else None
+  | None => None
+  end.
+Definition res_rel_ok (base ref : str) (obs : option str) : bool :=
+  opt_eqb str_eqb (resolve_rel_impl base ref) obs.
+
+(* BaseIri::resolve / resolve_into / BaseIriRef::resolve / resolve_into on a reference given as &str
+   (impl Resolvable for &str): always oxiri's CHECKED entry point, which also validates the reference; its
+   Err is returned (None), not unwrapped.  That oxiri rejects exactly the invalid references is the same
+   recogniser claim as in base_iriref_new_ok.  (On an absolute base protect_result is the identity.) *)
+Definition resolve_str_impl (base ref : str) : option str :=
+  if is_valid_iri_ref ref then option_map (protect_result base ref) (resolve_gen true base ref) else None.
+Definition res_str_ok (base ref : str) (obs : option str) : bool :=
+  opt_eqb str_eqb (resolve_str_impl base ref) obs.
